@@ -100,6 +100,8 @@ pub enum R1Op {
     /// scalar_mul_le with the bits of this small scalar allocated in this mode
     ScalarMul(usize, u16, Mode),
     IsEq(usize, usize),
+    /// CurveVar::is_zero: membership in the identity class {(0,1), (0,-1)}
+    IsZero(usize),
     EnforceEq(usize, usize),
     EnforceNe(usize, usize),
     CondEnforceEq(usize, usize, usize),
@@ -148,6 +150,8 @@ impl HintSub {
 #[derive(Clone, Debug, Serialize, Deserialize, PartialEq, Eq)]
 pub enum EncSub {
     Honest,
+    /// the negation of the honest encoding (same element up to the sign rule, not a valid encoding)
+    NegHonest,
     Raw(Hex),
     EncodeOf(ESrc),
 }
